@@ -475,3 +475,354 @@ Proof.
       * intros x Hx Hne. rewrite (P2 x (E_vis _ _ E1 x Hx) Hne). rewrite low_set_low.
         destruct (N.eqb_spec m x) as [E|E]; [congruence|]. apply (P_lowpres _ _ _ _ HP x Hx).
 Qed.
+
+(* ---------- after the loop: "if lowLinks[module] == indices[module] { pop }" ---------- *)
+Lemma two_distinct_length : forall (l : list N) x y, In x l -> In y l -> x <> y -> (2 <= length l)%nat.
+Proof.
+  intros l x y Hx Hy Hne. destruct l as [|a [|b l]]; cbn [length]; try lia.
+  - destruct Hx.
+  - destruct Hx as [<-|[]]. destruct Hy as [<-|[]]. congruence.
+Qed.
+
+Lemma enter_facts : forall st m st2, ext (enter st m) st2 -> ~ visited st m ->
+  (forall x, visited st x -> visited st2 x) /\
+  (forall x, visited st x -> idx st2 x = idx st x) /\
+  (forall x, ~ visited st x -> visited st2 x -> t_index st <= idx st2 x) /\
+  t_index st <= t_index st2 /\
+  exists new, t_stack st2 = new ++ m :: t_stack st /\ forall x, In x new -> ~ visited st x.
+Proof.
+  intros st m st2 E Hm.
+  assert (Vm : visited (enter st m) m) by (apply visited_enter; left; reflexivity).
+  split; [|split; [|split; [|split]]].
+  - intros x Hx. apply (E_vis _ _ E). apply visited_enter. right; exact Hx.
+  - intros x Hx. rewrite (E_idx _ _ E) by (apply visited_enter; right; exact Hx).
+    rewrite idx_enter. destruct (N.eqb_spec m x) as [Q|Q]; [subst; contradiction|reflexivity].
+  - intros x Hn Hv. destruct (N.eq_dec x m) as [->|Hxm].
+    + rewrite (E_idx _ _ E m Vm). rewrite idx_enter, N.eqb_refl. lia.
+    + assert (Hn' : ~ visited (enter st m) x) by (intro C; apply visited_enter in C; destruct C; contradiction).
+      pose proof (E_newidx _ _ E x Hn' Hv) as Q. rewrite index_enter in Q. lia.
+  - pose proof (E_index _ _ E) as Q. rewrite index_enter in Q. lia.
+  - destruct (E_stack _ _ E) as [new [Hs Hnew]]. exists new. split; [rewrite Hs, stack_enter; reflexivity|].
+    intros x Hx Hv. apply (Hnew x Hx). apply visited_enter. right; exact Hv.
+Qed.
+
+Lemma finish_nopop : forall gr m st st2,
+  LoopInv m gr [] st2 -> ext (enter st m) st2 -> lowpres m (enter st m) st2 -> ~ visited st m ->
+  low st2 m <> idx st2 m -> Post gr m st st2.
+Proof.
+  intros gr m st st2 L E LP Hm Hne. unfold LoopInv in L.
+  pose proof (L_inv _ _ _ _ _ L) as HI. pose proof (L_le _ _ _ _ _ L) as Hle.
+  destruct (enter_facts st m st2 E Hm) as [Fv [Fi [Fn [Ft [new [Hs2 Hnew]]]]]].
+  pose proof (I_sdesc _ _ HI) as Hdesc. rewrite Hs2 in Hdesc. apply desc_app in Hdesc.
+  destruct Hdesc as [Dn [Dm Dnm]]. cbn [desc] in Dm. destruct Dm as [DmS DS].
+  assert (Hms2 : In m (t_stack st2)) by (apply (I_gstack _ _ HI); left; reflexivity).
+  assert (Hnew_gt : forall a, In a new -> idx st2 m < idx st2 a) by (intros a Ha; apply Dnm; [exact Ha|left; reflexivity]).
+  destruct (L_wit _ _ _ _ _ L) as [y0 [Hy0 [Ey0 Hpy0]]].
+  assert (HI' : Inv gr st2).
+  { constructor; [apply (I_verts _ _ HI)|apply (I_bound _ _ HI)|apply (I_svis _ _ HI)|apply (I_inst _ _ HI)|apply (I_sdesc _ _ HI)
+                 | | | | | |apply (I_done _ _ HI)|apply (I_comps _ _ HI)|apply (I_dcomp _ _ HI)].
+    - pose proof (I_gdesc _ _ HI) as D. cbn [desc] in D. apply D.
+    - intros x Hx. apply (I_gstack _ _ HI). right; exact Hx.
+    - intros x y Hx Hng He. destruct (N.eq_dec x m) as [->|Hxm].
+      + destruct (L_proc _ _ _ _ _ L y He) as [[]|[->|[Hv _]]]; [apply (I_svis _ _ HI); exact Hms2|exact Hv].
+      + apply (I_black _ _ HI x y Hx); [intros [Q|Hi]; [congruence|contradiction]|exact He].
+    - intros y Hy. destruct (I_s2g _ _ HI y Hy) as [z [[<-|Hz] [Hle' Hp]]].
+      + destruct (I_s2g _ _ HI y0 Hy0) as [z0 [[<-|Hz0] [Hle0 Hp0]]]; [lia|].
+        exists z0. split; [exact Hz0|]. split; [lia|].
+        eapply path_trans; [exact Hp|]. eapply path_trans; [exact Hpy0|exact Hp0].
+      + exists z. split; [exact Hz|]. split; [exact Hle'|exact Hp].
+    - intros x y Hx. apply (I_g2s _ _ HI). right; exact Hx. }
+  constructor.
+  - exact HI'.
+  - constructor; [exact Fv|exact Fi|exact Fn|exact Ft|].
+    exists (new ++ [m]). split; [rewrite Hs2, <- app_assoc; reflexivity|].
+    intros x Hx. apply in_app_iff in Hx. destruct Hx as [Hx|[<-|[]]]; [apply Hnew; exact Hx|exact Hm].
+  - intros x Hx. assert (Hxm : x <> m) by (intro Q; subst; contradiction).
+    rewrite (LP x) by (try apply visited_enter; auto). rewrite low_enter.
+    destruct (N.eqb_spec m x) as [Q|Q]; [congruence|reflexivity].
+  - apply (I_svis _ _ HI). exact Hms2.
+  - exact Hle.
+  - intros _. exists y0. split; [exact Hy0|]. split; [exact Ey0|exact Hpy0].
+  - intros Hn. contradiction.
+  - intros a b Ha Hna He Hb.
+    assert (Hb2 : In b (t_stack st2)) by (rewrite Hs2; apply in_app_iff; right; right; exact Hb).
+    pose proof Ha as Ha2. rewrite Hs2 in Ha. apply in_app_iff in Ha. destruct Ha as [Ha|[<-|Ha]].
+    + apply (L_xedge _ _ _ _ _ L a b Ha2 (Hnew_gt a Ha) He Hb2).
+    + destruct (L_proc _ _ _ _ _ L b He) as [[]|[->|[_ Hs]]]; [specialize (DmS m Hb); lia|apply Hs; exact Hb2].
+    + contradiction.
+Qed.
+
+Lemma finish_pop : forall gr m st st2,
+  LoopInv m gr [] st2 -> ext (enter st m) st2 -> lowpres m (enter st m) st2 -> ~ visited st m ->
+  low st2 m = idx st2 m -> exists st', finish m st2 = Ok st' /\ Post gr m st st'.
+Proof.
+  intros gr m st st2 L E LP Hm Heq. unfold LoopInv in L. rewrite Heq in L.
+  pose proof (L_inv _ _ _ _ _ L) as HI.
+  destruct (enter_facts st m st2 E Hm) as [Fv [Fi [Fn [Ft [new [Hs2 Hnew]]]]]].
+  pose proof (I_sdesc _ _ HI) as Hdesc. rewrite Hs2 in Hdesc. apply desc_app in Hdesc.
+  destruct Hdesc as [Dn [Dm Dnm]]. cbn [desc] in Dm. destruct Dm as [DmS DS].
+  assert (Hms2 : In m (t_stack st2)) by (apply (I_gstack _ _ HI); left; reflexivity).
+  assert (Hnew_gt : forall a, In a new -> idx st2 m < idx st2 a) by (intros a Ha; apply Dnm; [exact Ha|left; reflexivity]).
+  set (C := new ++ [m]).
+  assert (HinS2 : forall x, In x (t_stack st2) <-> In x C \/ In x (t_stack st)).
+  { intros x. rewrite Hs2. unfold C. rewrite !in_app_iff. cbn [In]. tauto. }
+  assert (Hge : forall x, In x C -> idx st2 m <= idx st2 x).
+  { intros x Hx. unfold C in Hx. apply in_app_iff in Hx. destruct Hx as [Hx|[<-|[]]]; [specialize (Hnew_gt x Hx)|]; lia. }
+  assert (HCS : forall x, In x C -> ~ In x (t_stack st)).
+  { intros x Hx Hi. specialize (Hge x Hx). specialize (DmS x Hi). lia. }
+  assert (Hgr_lt : forall z, In z gr -> idx st2 z < idx st2 m).
+  { pose proof (I_gdesc _ _ HI) as D. cbn [desc] in D. apply D. }
+  assert (HmC : In m C) by (unfold C; apply in_app_iff; right; left; reflexivity).
+  assert (HCvis : forall x, In x C -> visited st2 x) by (intros x Hx; apply (I_svis _ _ HI); apply HinS2; left; exact Hx).
+  (* imports of the popped modules stay among the popped modules *)
+  assert (F1 : forall a b, In a C -> edge g a b -> visited st2 b /\ (In b C \/ ~ In b (t_stack st2))).
+  { intros a b Ha He. pose proof Ha as HaC. unfold C in Ha. apply in_app_iff in Ha. destruct Ha as [Ha|[<-|[]]].
+    - specialize (Hnew_gt a Ha).
+      assert (Hng : ~ In a (m :: gr)) by (intros [Q|Hz]; [subst; lia|specialize (Hgr_lt a Hz); lia]).
+      split; [apply (I_black _ _ HI a b (HCvis a HaC) Hng He)|].
+      destruct (in_dec N.eq_dec b (t_stack st2)) as [Hb|Hb]; [|right; exact Hb].
+      left. pose proof Hb as Hb2. apply HinS2 in Hb. destruct Hb as [Hb|Hb]; [exact Hb|].
+      pose proof (L_xedge _ _ _ _ _ L a b (proj2 (HinS2 a) (or_introl HaC)) Hnew_gt He Hb2). specialize (DmS b Hb). lia.
+    - destruct (L_proc _ _ _ _ _ L b He) as [[]|[->|[Hv Hs]]].
+      + split; [apply HCvis; exact HmC|left; exact HmC].
+      + split; [exact Hv|]. destruct (in_dec N.eq_dec b (t_stack st2)) as [Hb|Hb]; [|right; exact Hb].
+        left. specialize (Hs Hb). apply HinS2 in Hb. destruct Hb as [Hb|Hb]; [exact Hb|]. specialize (DmS b Hb). lia. }
+  (* the popped modules are mutually reachable *)
+  assert (F2 : forall a, In a C -> mutual g m a).
+  { intros a Ha. assert (Ha2 : In a (t_stack st2)) by (apply HinS2; left; exact Ha). split.
+    - apply (I_g2s _ _ HI m a); [left; reflexivity|exact Ha2|apply Hge; exact Ha].
+    - destruct (I_s2g _ _ HI a Ha2) as [z [[<-|Hz] [Hle' Hp]]]; [exact Hp|].
+      eapply path_trans; [exact Hp|]. apply (I_g2s _ _ HI z m); [right; exact Hz|exact Hms2|].
+      specialize (Hgr_lt z Hz). lia. }
+  assert (D' : forall x y, visited st2 x -> ~ In x (t_stack st) -> edge g x y -> visited st2 y /\ ~ In y (t_stack st)).
+  { intros x y Hx Hns He. destruct (in_dec N.eq_dec x (t_stack st2)) as [Hx2|Hx2].
+    - apply HinS2 in Hx2. destruct Hx2 as [HxC|Hi]; [|contradiction].
+      destruct (F1 x y HxC He) as [Hy [HyC|Hy2]]; (split; [exact Hy|]).
+      + apply HCS; exact HyC.
+      + intro Hi. apply Hy2. apply HinS2. right; exact Hi.
+    - destruct (I_done _ _ HI x y Hx Hx2 He) as [Hy Hy2]. split; [exact Hy|].
+      intro Hi. apply Hy2. apply HinS2. right; exact Hi. }
+  (* and no other module is mutually reachable with them *)
+  assert (Max : forall y, mutual g m y -> In y C).
+  { intros y [Hmy Hym].
+    assert (Py : visited st2 y /\ ~ In y (t_stack st)).
+    { apply (path_closed (fun x => visited st2 x /\ ~ In x (t_stack st))) with (a := m); [|exact Hmy|].
+      - intros x x' [Hx Hxs] He. apply (D' x x' Hx Hxs He).
+      - split; [apply HCvis; exact HmC|apply HCS; exact HmC]. }
+    destruct Py as [Hy Hys]. destruct (in_dec N.eq_dec y (t_stack st2)) as [Hy2|Hy2].
+    - apply HinS2 in Hy2. destruct Hy2 as [HyC|Hi]; [exact HyC|contradiction].
+    - exfalso.
+      assert (Pm : visited st2 m /\ ~ In m (t_stack st2)).
+      { apply (path_closed (fun x => visited st2 x /\ ~ In x (t_stack st2))) with (a := y); [|exact Hym|].
+        - intros x x' [Hx Hxs] He. apply (I_done _ _ HI x x' Hx Hxs He).
+        - split; assumption. }
+      destruct Pm as [_ Q]. apply Q. exact Hms2. }
+  assert (Hmnew : ~ In m new) by (intro Hi; specialize (Hnew_gt m Hi); lia).
+  unfold finish. rewrite (proj2 (Z.eqb_eq _ _) Heq). rewrite Hs2, (pop_until_app new m (t_stack st) (t_inStack st2) [] Hmnew).
+  cbn [app]. rewrite keep_component_spec. fold C.
+  set (inS' := fold_left (fun acc y => mset acc y false) C (t_inStack st2)).
+  set (comps' := if (2 <=? length C)%nat then t_components st2 ++ [sort_names C] else t_components st2).
+  eexists. split; [reflexivity|].
+  set (st' := Build_tstate (t_index st2) (t_stack st) inS' (t_indices st2) (t_lowLinks st2) comps').
+  assert (Hinst' : forall x, in_stack st' x = if memb x C then false else in_stack st2 x).
+  { intros x. unfold in_stack, st'. cbn [t_inStack]. unfold inS'. rewrite mget_fold_false. destruct (memb x C); reflexivity. }
+  assert (HsC : forall x, In x (sort_names C) <-> In x C).
+  { intros x. split; apply Permutation_in; [|symmetry]; apply sort_names_perm. }
+  assert (HI' : Inv gr st').
+  { constructor.
+    - exact (I_verts _ _ HI).
+    - exact (I_bound _ _ HI).
+    - intros x Hx. change (In x (t_stack st)) in Hx. change (visited st2 x). apply (I_svis _ _ HI). apply HinS2; right; exact Hx.
+    - intros x. rewrite Hinst'. change (t_stack st') with (t_stack st). destruct (memb x C) eqn:Mx.
+      + apply memb_In in Mx. split; [discriminate|intros Hi; exfalso; exact (HCS x Mx Hi)].
+      + apply memb_false in Mx. rewrite (I_inst _ _ HI). rewrite HinS2. tauto.
+    - exact DS.
+    - pose proof (I_gdesc _ _ HI) as D. cbn [desc] in D. exact (proj2 D).
+    - intros x Hx. change (In x (t_stack st)).
+      assert (Hx2 : In x (t_stack st2)) by (apply (I_gstack _ _ HI); right; exact Hx).
+      apply HinS2 in Hx2. destruct Hx2 as [HxC|Hi]; [|exact Hi].
+      specialize (Hge x HxC). specialize (Hgr_lt x Hx). lia.
+    - intros x y Hx Hng He. change (visited st2 x) in Hx. change (visited st2 y).
+      destruct (N.eq_dec x m) as [->|Hxm]; [apply (F1 m y HmC He)|].
+      apply (I_black _ _ HI x y Hx); [intros [Q|Hi]; [congruence|contradiction]|exact He].
+    - intros y Hy. change (In y (t_stack st)) in Hy.
+      destruct (I_s2g _ _ HI y (proj2 (HinS2 y) (or_intror Hy))) as [z [[<-|Hz] [Hle' Hp]]].
+      + specialize (DmS y Hy). lia.
+      + exists z. split; [exact Hz|]. split; [exact Hle'|exact Hp].
+    - intros x y Hx Hy Hle'. change (In y (t_stack st)) in Hy.
+      apply (I_g2s _ _ HI x y); [right; exact Hx|apply HinS2; right; exact Hy|exact Hle'].
+    - exact D'.
+    - intros c x Hc Hxc. change (In c comps') in Hc. change (t_stack st') with (t_stack st). change (visited st' x) with (visited st2 x).
+      assert (Old : In c (t_components st2) -> visited st2 x /\ ~ In x (t_stack st) /\ (forall y, In y c <-> mutual g x y)).
+      { intros Hc'. destruct (I_comps _ _ HI c x Hc' Hxc) as [Hx [Hxs Hcl]]. split; [exact Hx|]. split; [|exact Hcl].
+        intro Hi. apply Hxs. apply HinS2. right; exact Hi. }
+      unfold comps' in Hc. destruct (2 <=? length C)%nat; [|exact (Old Hc)].
+      apply in_app_iff in Hc. destruct Hc as [Hc|[<-|[]]]; [exact (Old Hc)|].
+      apply HsC in Hxc. split; [apply HCvis; exact Hxc|]. split; [apply HCS; exact Hxc|].
+      intros y. rewrite HsC. split.
+      + intros Hy. eapply mutual_trans; [apply mutual_sym; apply F2; exact Hxc|apply F2; exact Hy].
+      + intros Hmu. apply Max. eapply mutual_trans; [apply F2; exact Hxc|exact Hmu].
+    - intros x y Hx Hns Hne Hmu. change (visited st2 x) in Hx. change (~ In x (t_stack st)) in Hns.
+      change (t_components st') with comps'.
+      destruct (in_dec N.eq_dec x (t_stack st2)) as [Hx2|Hx2].
+      + apply HinS2 in Hx2. destruct Hx2 as [HxC|Hi]; [|contradiction].
+        assert (HyC : In y C) by (apply Max; eapply mutual_trans; [apply F2; exact HxC|exact Hmu]).
+        pose proof (two_distinct_length C y x HyC HxC Hne) as Hlen. apply Nat.leb_le in Hlen.
+        exists (sort_names C). unfold comps'. rewrite Hlen. split; [apply in_app_iff; right; left; reflexivity|apply HsC; exact HxC].
+      + destruct (I_dcomp _ _ HI x y Hx Hx2 Hne Hmu) as [c [Hc Hxc]]. exists c. split; [|exact Hxc].
+        unfold comps'. destruct (2 <=? length C)%nat; [apply in_app_iff; left|]; exact Hc. }
+  constructor.
+  - exact HI'.
+  - constructor; [exact Fv|exact Fi|exact Fn|exact Ft|]. exists []. split; [reflexivity|intros x []].
+  - intros x Hx. change (low st' x) with (low st2 x). assert (Hxm : x <> m) by (intro Q; subst; contradiction).
+    rewrite (LP x) by (try apply visited_enter; auto). rewrite low_enter.
+    destruct (N.eqb_spec m x) as [Q|Q]; [congruence|reflexivity].
+  - change (visited st2 m). apply HCvis; exact HmC.
+  - change (low st2 m <= idx st2 m). lia.
+  - intros Hi. change (In m (t_stack st)) in Hi. exfalso. exact (HCS m HmC Hi).
+  - intros _. exact Heq.
+  - intros a b Ha Hna. exfalso. exact (Hna Ha).
+Qed.
+
+(* ---------- strongConnect: fuel = number of unvisited modules suffices ---------- *)
+Lemma strongConnect_spec : forall fuel, sc_spec (strongConnect fuel mg) fuel.
+Proof.
+  induction fuel as [|fuel IH]; intros m st gr HI Hm Hmv Hp Hb.
+  - exfalso.
+    assert (Hin : In m (unv st)).
+    { unfold unv. apply filter_In. split; [exact Hmv|]. apply negb_true_iff.
+      destruct (visitedb st m) eqn:V; [apply visitedb_spec in V; contradiction|reflexivity]. }
+    destruct (unv st); [destruct Hin|cbn [length] in Hb; lia].
+  - cbn [strongConnect]. fold (deps_of m).
+    assert (L0 : LoopInv m gr (deps_of m) (enter st m)).
+    { unfold LoopInv. rewrite low_enter, N.eqb_refl.
+      pose proof (Inv_enter gr st m HI Hm Hmv Hp) as HI1.
+      assert (Ei : idx (enter st m) m = t_index st) by (rewrite idx_enter, N.eqb_refl; reflexivity).
+      constructor.
+      - exact HI1.
+      - lia.
+      - exists m. split; [rewrite stack_enter; left; reflexivity|]. split; [exact Ei|apply path_refl].
+      - intros a b Ha Hlt. exfalso. rewrite stack_enter in Ha. destruct Ha as [<-|Ha]; [lia|].
+        pose proof (I_sdesc _ _ HI1) as D. rewrite stack_enter in D. cbn [desc] in D. destruct D as [D _].
+        specialize (D a Ha). lia.
+      - intros d Hd. apply W_deps_edge. exact Hd.
+      - intros d He. destruct (N.eq_dec m d) as [Q|Q]; [right; left; symmetry; exact Q|left; apply W_edge_deps; assumption]. }
+    destruct (succ_loop_spec (strongConnect fuel mg) fuel m gr IH (deps_of m) (enter st m) L0) as [st2 [R [L2 [E2 P2]]]].
+    { pose proof (unv_enter st m Hmv Hm). lia. }
+    rewrite R. destruct (Z.eq_dec (low st2 m) (idx st2 m)) as [Q|Q].
+    + apply (finish_pop gr m st st2 L2 E2 P2 Hm Q).
+    + exists st2. split; [|apply (finish_nopop gr m st st2 L2 E2 P2 Hm Q)].
+      unfold finish. rewrite (proj2 (Z.eqb_neq _ _) Q). reflexivity.
+Qed.
+
+(* ---------- findStronglyConnectedComponents ---------- *)
+Lemma Inv_reset : Inv [] resetState.
+Proof.
+  assert (V : forall x, ~ visited resetState x) by (intros x H; apply H; reflexivity).
+  constructor; try (intros x H; exfalso; exact (V x H)); try (intros x y H; exfalso; exact (V x H)).
+  - intros x []. 
+  - intros x. split; [discriminate|intros []].
+  - exact I.
+  - exact I.
+  - intros x [].
+  - intros y [].
+  - intros x y [].
+  - intros c x [].
+Qed.
+
+Lemma unv_le : forall st, (length (unv st) <= length (verts g))%nat.
+Proof. intros st. unfold unv. apply filter_length_le. Qed.
+
+Lemma find_sccs_loop_spec : forall fuel, (length (verts g) <= fuel)%nat ->
+  forall roots st, (forall n, In n roots -> In (n_name n) (verts g)) -> Inv [] st ->
+  exists st', find_sccs_loop fuel mg roots st = Ok st' /\ Inv [] st' /\ ext st st' /\
+              forall n, In n roots -> visited st' (n_name n).
+Proof.
+  intros fuel Hf. induction roots as [|n rest IH]; intros st Hr HI.
+  - exists st. split; [reflexivity|]. split; [exact HI|]. split; [apply ext_refl|intros n []].
+  - cbn [find_sccs_loop]. destruct (mget (t_indices st) (n_name n)) as [i|] eqn:En.
+    + destruct (IH st (fun k Hk => Hr k (or_intror Hk)) HI) as [st' [R [HI' [E Hv]]]].
+      exists st'. split; [exact R|]. split; [exact HI'|]. split; [exact E|].
+      intros k [<-|Hk]; [|apply Hv; exact Hk]. apply (E_vis _ _ E). unfold visited. rewrite En. discriminate.
+    + assert (Hnv : ~ visited st (n_name n)) by (unfold visited; rewrite En; intro C; apply C; reflexivity).
+      destruct (strongConnect_spec fuel (n_name n) st [] HI Hnv (Hr n (or_introl eq_refl))) as [st1 [R1 HP]].
+      { intros z []. }
+      { pose proof (unv_le st). lia. }
+      rewrite R1. destruct (IH st1 (fun k Hk => Hr k (or_intror Hk)) (P_inv _ _ _ _ HP)) as [st' [R [HI' [E Hv]]]].
+      exists st'. split; [exact R|]. split; [exact HI'|]. split; [eapply ext_trans; [apply (P_ext _ _ _ _ HP)|exact E]|].
+      intros k [<-|Hk]; [|apply Hv; exact Hk]. apply (E_vis _ _ E). apply (P_vis _ _ _ _ HP).
+Qed.
+
+(* ---------- the reported components against the specification ---------- *)
+Hypothesis W_nodup : NoDup (verts g).
+Hypothesis W_names : forall n, In n mg -> In (n_name n) (verts g).
+Hypothesis W_all : forall v, In v (verts g) -> exists n, In n mg /\ n_name n = v.
+Hypothesis W_len : (length (verts g) <= length mg)%nat.
+
+Lemma NoDup_app_disj : forall (a b : list N) x, NoDup (a ++ b) -> In x a -> In x b -> False.
+Proof.
+  induction a as [|y a IH]; intros b x H Ha Hb; [destruct Ha|]. cbn [app] in H. inversion H as [|? ? Hy Hn]; subst.
+  destruct Ha as [<-|Ha]; [apply Hy; apply in_app_iff; right; exact Hb|exact (IH b x Hn Ha Hb)].
+Qed.
+
+Lemma nodup_map_norm : forall l : list (list N), NoDup (concat l) ->
+  (forall c, In c l -> (exists x, In x c) /\ forall x, In x c -> In x (verts g)) -> NoDup (map (norm g) l).
+Proof.
+  induction l as [|c l IH]; intros Hn Hc; cbn [map]; [constructor|]. cbn [concat] in Hn. constructor.
+  - intro Hin. apply in_map_iff in Hin. destruct Hin as [c2 [E2 Hc2]].
+    destruct (Hc c (or_introl eq_refl)) as [[x Hx] Hv].
+    assert (Hx2 : In x (norm g c2)) by (rewrite E2; apply norm_In; split; [apply Hv; exact Hx|exact Hx]).
+    apply norm_In in Hx2. destruct Hx2 as [_ Hx2].
+    apply (NoDup_app_disj c (concat l) x Hn Hx). apply in_concat. exists c2. split; assumption.
+  - apply IH; [apply NoDup_app_remove_l in Hn; exact Hn|intros c' Hc'; apply Hc; right; exact Hc'].
+Qed.
+
+Theorem tarjan_exact_wf : exists out, tarjan mg = Some out /\
+  Permutation (map (norm g) out) (scc_spec g) /\
+  Forall (fun c => NoDup c /\ forall x, In x c -> In x (verts g)) out.
+Proof.
+  destruct (find_sccs_loop_spec (tarjan_fuel mg)) with (roots := mg) (st := resetState) as [st' [R [HI [_ Hall]]]].
+  { unfold tarjan_fuel. lia. }
+  { exact W_names. }
+  { exact Inv_reset. }
+  assert (T : tarjan mg = Some (t_components st')) by (unfold tarjan, findStronglyConnectedComponents; rewrite R; reflexivity).
+  exists (t_components st'). split; [exact T|].
+  destruct (tarjan_components_partial mg _ T) as [Hbig Hnd]. destruct (tarjan_components_disjoint mg _ T) as [Hcnd _].
+  assert (Hstack : t_stack st' = []).
+  { destruct (t_stack st') as [|y s] eqn:Es; [reflexivity|]. destruct (I_s2g _ _ HI y) as [z [[] _]]. rewrite Es. left; reflexivity. }
+  assert (Hvis : forall v, In v (verts g) -> visited st' v).
+  { intros v Hv. destruct (W_all v Hv) as [n [Hn <-]]. apply Hall. exact Hn. }
+  assert (Hcls : forall c x, In c (t_components st') -> In x c -> In x (verts g) /\ forall y, In y c <-> mutual g x y).
+  { intros c x Hc Hx. destruct (I_comps _ _ HI c x Hc Hx) as [Hv [_ Hcl]]. split; [apply (I_verts _ _ HI); exact Hv|exact Hcl]. }
+  assert (Hsub : forall c, In c (t_components st') -> forall x, In x c -> In x (verts g)).
+  { intros c Hc x Hx. apply (Hcls c x Hc Hx). }
+  rewrite Forall_forall in Hbig.
+  split; [|apply Forall_forall; intros c Hc; split; [apply Hcnd; exact Hc|apply Hsub; exact Hc]].
+  apply NoDup_Permutation.
+  - apply nodup_map_norm; [exact Hnd|]. intros c Hc. split; [|apply Hsub; exact Hc].
+    specialize (Hbig c Hc). destruct c as [|x r]; [cbn [length] in Hbig; lia|exists x; left; reflexivity].
+  - apply scc_spec_nodup. exact W_nodup.
+  - intros c'. split.
+    + intros Hin. apply in_map_iff in Hin. destruct Hin as [c [<- Hc]]. apply scc_spec_char. split.
+      * rewrite norm_length; [apply Hbig; exact Hc|exact W_nodup|apply Hcnd; exact Hc|apply Hsub; exact Hc].
+      * split; [apply (filter_canonical g)|]. split.
+        -- intros x y Hx Hy. apply norm_In in Hx. apply norm_In in Hy. apply (Hcls c x Hc (proj2 Hx)). exact (proj2 Hy).
+        -- intros x w Hx Hw Hmu. apply norm_In in Hx. apply norm_In. split; [exact Hw|].
+           apply (Hcls c x Hc (proj2 Hx)). exact Hmu.
+    + intros Hin. apply scc_spec_char in Hin. destruct Hin as [Hl [Hn [Hmut Hmax]]].
+      assert (Hnd' : NoDup c') by (rewrite Hn; unfold norm; apply NoDup_filter'; exact W_nodup).
+      assert (Hex : exists x, In x c') by (destruct c' as [|x r]; [cbn [length] in Hl; lia|exists x; left; reflexivity]).
+      destruct Hex as [x Hx]. destruct (nodup_two c' x Hnd' Hl Hx) as [y [Hy Hxy]].
+      assert (Hxv : In x (verts g)) by (rewrite Hn in Hx; apply norm_In in Hx; apply Hx).
+      assert (Hxs : ~ In x (t_stack st')) by (rewrite Hstack; intros []).
+      destruct (I_dcomp _ _ HI x y (Hvis x Hxv) Hxs (fun Q => Hxy (eq_sym Q)) (Hmut x y Hx Hy)) as [c [Hc Hxc]].
+      apply in_map_iff. exists c. split; [|exact Hc].
+      transitivity (norm g c'); [|symmetry; exact Hn].
+      unfold norm. apply filter_ext_in. intros v Hv. apply bool_eq_iff. rewrite !memb_In.
+      destruct (Hcls c x Hc Hxc) as [_ Hcl]. rewrite Hcl. split.
+      * intros Hmu. apply (Hmax x v Hx Hv Hmu).
+      * intros Hvc. apply Hmut; assumption.
+Qed.
+End Correct.
+Check tarjan_exact_wf.
+Print Assumptions tarjan_exact_wf.
